@@ -312,6 +312,46 @@ func qeGenDataset(r *vRand, maxBackends, maxHosts int) *qeDataset {
 	return ds
 }
 
+// sortCustomVars orders the custom variables of every host and service by name. Used by the cluster profile:
+// a single lmd writes the members of a custom_variables object in custom_variable_names order, a cluster node
+// passes every partner row through a Go map and writes them sorted by name - the same JSON object; with sorted
+// names both orders coincide and the comparison can stay member by member.
+func (ds *qeDataset) sortCustomVars() {
+	for _, bk := range ds.Backends {
+		for _, t := range bk.Tables {
+			ni, vi := -1, -1
+			for i, c := range t.Cols {
+				switch c {
+				case "custom_variable_names":
+					ni = i
+				case "custom_variable_values":
+					vi = i
+				}
+			}
+			if ni < 0 || vi < 0 {
+				continue
+			}
+			for _, row := range t.Rows {
+				names, ok1 := row[ni].([]string)
+				vals, ok2 := row[vi].([]string)
+				if !ok1 || !ok2 || len(names) != len(vals) {
+					continue
+				}
+				idx := make([]int, len(names))
+				for i := range idx {
+					idx[i] = i
+				}
+				sort.SliceStable(idx, func(a, b int) bool { return names[idx[a]] < names[idx[b]] })
+				nn, vv := make([]string, len(names)), make([]string, len(names))
+				for i, k := range idx {
+					nn[i], vv[i] = names[k], vals[k]
+				}
+				row[ni], row[vi] = nn, vv
+			}
+		}
+	}
+}
+
 // ---- JSON (replay) decoding: restore typed values from generic JSON ----------
 
 func (ds *qeDataset) fixTypes() {
